@@ -310,3 +310,78 @@ func c15d(nev, nchildren int, subscriber bool) {
 func Harness_C15_root_2d()  { c15d(0, 2, false) }
 func Harness_C15_sub_1_2d() { c15d(1, 2, true) }
 func Harness_C15_root_3d()  { c15d(0, 3, false) }
+
+// ---- bounded sequences on one subscriber loop ----
+// Several steps of the real loop in subscriber mode: events are published to it and its consumer
+// reads, in every scheduler-chosen order.  At every quiescent point
+//     (events handed to the consumer) ++ (undelivered buffer) == (buffer at the start) ++ (events published)
+// in order - the per-subscriber FIFO invariant the end-to-end argument rests on, here over a
+// bounded sequence instead of a single step.
+func c15sequence(nev, steps int) {
+	e := c15new(nev, 0, true)
+	b := e.b
+	var published []Event
+	check := func() {
+		verif_Reach("sequence")
+		want := append(append([]Event{}, e.pre...), published...)
+		got := append(append([]Event{}, e.emitted...), b.evbuf...)
+		verif_Assert(len(got) == len(want), "C15 every event reaches the subscriber exactly once")
+		for i := range want {
+			if i < len(got) {
+				verif_Assert(got[i] == want[i], "C15 events reach the subscriber in publication order")
+			}
+		}
+	}
+	if verif_Symbolic() {
+		verif_EnvSinkFn(b.eventch, "eventch", func(v interface{}) { verif_Log("emit:0"); e.emitted = append(e.emitted, v) })
+		verif_EnvSinkFn(e.parent, "parent", func(v interface{}) { e.notified++ })
+		verif_EnvChan(b.pubch, "publish", 3, func() interface{} {
+			verif_Pick("publish", 1)
+			ev := Event(100 + len(published))
+			published = append(published, ev)
+			return ev
+		})
+		verif_EnvLimit(b.unsubch, 0)
+		verif_OnQuiescent(check)
+		verif_Steps(steps)
+		b.run()
+		return
+	}
+	fin := make(chan struct{})
+	go func() { b.run(); close(fin) }()
+	go func() {
+		select {
+		case <-e.parent:
+		case <-fin:
+		}
+	}()
+	for _, s := range verif_Schedule() {
+		kind, _, _ := verif_Step(s)
+		switch kind {
+		case "publish":
+			ev := Event(100 + len(published))
+			select {
+			case b.pubch <- ev:
+				published = append(published, ev)
+			case <-time.After(time.Second):
+			}
+		case "emit":
+			select {
+			case ev := <-b.eventch:
+				e.emitted = append(e.emitted, ev)
+			case <-time.After(time.Second):
+			}
+		}
+		verif_Settle()
+	}
+	go b.lc.ShutdownAsync(nil)
+	select {
+	case <-fin:
+	case <-time.After(3 * time.Second):
+	}
+	check()
+}
+
+func Harness_C15_sequence_0_4() { c15sequence(0, 4) }
+func Harness_C15_sequence_1_5() { c15sequence(1, 5) }
+func Harness_C15_sequence_2_6() { c15sequence(2, 6) }
